@@ -159,6 +159,6 @@ pub fn run(ctx: &Ctx) {
     ctx.rule("fits of zoo problems (1..3 right-hand sides, six weight classes, builder-made and hand-written, f32/f64, noiseless and 5% noise) from starts within 10%, 0.2x..5x and 0.4x..2.5x of the generating parameters under random optimizer settings (patience 1..100, tolerances 0..1e-2, step bound 0.01..100, scale_diag on/off, and the default); each fit is run twice: the real LevMarSolver::fit with a ModelSpy log, and minimize over a ProblemSpy with the same optimizer; the two call logs, reports and final parameters must be identical, then: Ok <=> successful termination, model evaluations and number_of_evaluations <= patience·(P+1), and for successful fits the C01 certificate and C02 identity at the returned state, objective = 1/2|r|^2 (1e-12), objective <= objective at the initial guess. distinct = (problem, optimizer configuration); every fit is non-trivial");
     ctx.assume("sequential flavour only (the parallel flavour's call log is schedule dependent; C11 compares parallel fits with sequential ones)");
     let t = ctx.tier;
-    ctx.run_cases("fits", t.pick(12000, 80000), t.pick(20.0, 240.0), |r, c, o| if c % 4 == 0 { fit_case::<f32>(r, c, o) } else { fit_case::<f64>(r, c, o) });
-    ctx.run_cases("rank-deficient-fits", t.pick(2500, 15000), t.pick(15.0, 120.0), |r, c, o| if c % 4 == 0 { rankdef_fit_case::<f32>(r, c, o) } else { rankdef_fit_case::<f64>(r, c, o) });
+    ctx.run_cases("fits", t.pick(12000, 640000), t.pick(20.0, 900.0), |r, c, o| if c % 4 == 0 { fit_case::<f32>(r, c, o) } else { fit_case::<f64>(r, c, o) });
+    ctx.run_cases("rank-deficient-fits", t.pick(2500, 120000), t.pick(15.0, 900.0), |r, c, o| if c % 4 == 0 { rankdef_fit_case::<f32>(r, c, o) } else { rankdef_fit_case::<f64>(r, c, o) });
 }
